@@ -10,7 +10,7 @@ no FIN, a SYN carries `seq = iss` and no text, a text-bearing segment carries a 
 
 `TInv port issX issY subX subY delX t` — the invariant of endpoint X's TCB `t` (peer Y):
 send facts S1-S3, validity of everything on the retransmission and one-shot queues, validity of
-the reorder heap (R2), and the receive facts R1 (`RCV.NXT = issY + 1 + |delivered ++ buffered|`,
+the reorder heap (R2), and the receive facts R1 (`RCV.IRS = issY`, `RCV.NXT = issY + 1 + |delivered ++ buffered|`,
 `delivered ++ buffered` a prefix of `subY`) outside SYN-SENT, `delivered = buffered = []` in
 SYN-SENT.  No fact about acknowledgment numbers, `SND.UNA`, windows or timers.
 
@@ -62,6 +62,7 @@ structure TInv (port : U16) (issX issY : Seq) (subX subY delX : List UInt8) (t :
   rcv1 : t.state ≠ .SynSent →
     t.rcv.nxt = issY + 1 + BitVec.ofNat 32 (delX.length + t.incoming.text.length) ∧
     (delX ++ t.incoming.text) <+: subY
+  irs : t.state ≠ .SynSent → t.rcv.irs = issY
 
 /-- the frame relation -/
 structure Fr (t t' : Tcb) : Prop where
@@ -106,13 +107,14 @@ theorem Fr.synSent {t t' : Tcb} (f : Fr t t') : t'.state = .SynSent ↔ t.state 
 theorem TInv.of_fr {port : U16} {issX issY : Seq} {subX subY delX : List UInt8} {t t' : Tcb}
     (h : TInv port issX issY subX subY delX t) (f : Fr t t') : TInv port issX issY subX subY delX t' := by
   refine ⟨f.lp.trans h.lp, f.ok3 h.st, f.iss.trans h.iss, ?_, fun g hg => h.rtx g (f.rtx g hg), fun x hx => ?_,
-    by rw [f.inc]; exact h.heap, fun hs => ?_, fun hs => ?_⟩
+    by rw [f.inc]; exact h.heap, fun hs => ?_, fun hs => ?_, fun hs => ?_⟩
   · rw [f.otext, f.nxt]; exact h.out
   · rcases f.one x hx with hx | ⟨a, b, c⟩
     · exact h.one x hx
     · exact ⟨a, b, c.trans h.lp⟩
   · rw [f.inc]; exact h.rcv0 (f.synSent.1 hs)
   · rw [f.inc, f.rcv]; exact h.rcv1 (fun e => hs (f.synSent.2 e))
+  · rw [f.rcv]; exact h.irs (fun e => hs (f.synSent.2 e))
 
 /-! ## monotonicity in the peer's submitted bytes -/
 
@@ -120,7 +122,7 @@ theorem TInv.mono_peer {port : U16} {issX issY : Seq} {subX subY delX : List UIn
     (h : TInv port issX issY subX subY delX t) (more : List UInt8) :
     TInv port issX issY subX (subY ++ more) delX t :=
   ⟨h.lp, h.st, h.iss, h.out, h.rtx, h.one, fun g hg => (h.heap g hg).mono more, h.rcv0,
-    fun hs => ⟨(h.rcv1 hs).1, (h.rcv1 hs).2.trans (List.prefix_append _ _)⟩⟩
+    fun hs => ⟨(h.rcv1 hs).1, (h.rcv1 hs).2.trans (List.prefix_append _ _)⟩, h.irs⟩
 
 /-! ## headers -/
 
